@@ -380,16 +380,19 @@ class FormulaManager(object):
 
     def Int(self, value: int) -> FNode:
         """Return a constant of type INT."""
+        # The kind of the argument is checked before the cache is
+        # looked up: 7.0 == 7 must not make Int(7.0) depend on
+        # whether Int(7) was created before
+        if not (is_pysmt_integer(value) or is_python_integer(value)):
+            raise PysmtTypeError("Invalid type in constant. The type was:" + \
+                                 str(type(value)))
         if value in self.int_constants:
             return self.int_constants[value]
 
         if is_pysmt_integer(value):
             val = value
-        elif is_python_integer(value):
-            val = pysmt_integer_from_integer(value)
         else:
-            raise PysmtTypeError("Invalid type in constant. The type was:" + \
-                                 str(type(value)))
+            val = pysmt_integer_from_integer(value)
         n = self.create_node(node_type=op.INT_CONSTANT,
                              args=tuple(),
                              payload=val)
